@@ -113,6 +113,8 @@ func DepositRequestsType(spec *Spec) ListTypeDef {
 }
 
 func (li *DepositRequests) Deserialize(spec *Spec, dr *codec.DecodingReader) error {
+	// decode into a recycled object: drop what it holds (dr.List appends)
+	*li = (*li)[:0]
 	return dr.List(func() codec.Deserializable {
 		i := len(*li)
 		*li = append(*li, DepositRequest{})
@@ -151,6 +153,8 @@ func WithdrawalRequestsType(spec *Spec) ListTypeDef {
 }
 
 func (li *WithdrawalRequests) Deserialize(spec *Spec, dr *codec.DecodingReader) error {
+	// decode into a recycled object: drop what it holds (dr.List appends)
+	*li = (*li)[:0]
 	return dr.List(func() codec.Deserializable {
 		i := len(*li)
 		*li = append(*li, WithdrawalRequest{})
@@ -189,6 +193,8 @@ func ConsolidationRequestsType(spec *Spec) ListTypeDef {
 }
 
 func (li *ConsolidationRequests) Deserialize(spec *Spec, dr *codec.DecodingReader) error {
+	// decode into a recycled object: drop what it holds (dr.List appends)
+	*li = (*li)[:0]
 	return dr.List(func() codec.Deserializable {
 		i := len(*li)
 		*li = append(*li, ConsolidationRequest{})
